@@ -14,7 +14,7 @@ CONSTANTS MaxDepth = 30
           MaxSteps = 0
           Devs = @DEVS@
 INVARIANTS WellFormed FdsOK DevReport
-PROPERTIES FailedOpsNoChange MoveSemantics Frame AckedWriteVisible
+PROPERTIES FailedOpsNoChange MoveSemantics MoveRefusal Frame AckedWriteVisible
 CONSTRAINT TraceConstraint
 POSTCONDITION TracePost
 CHECK_DEADLOCK FALSE
